@@ -215,10 +215,14 @@ def check(ix, rep, label, only_fields=None, rule='R-NAME'):
             if par is not None:
                 t, in_body = par
                 for x in ast.walk(t):
+                    neg = isinstance(t, ast.UnaryOp) and isinstance(t.op, ast.Not)
                     if isinstance(x, ast.Attribute) and isinstance(x.value, ast.Name) and x.value.id == 'self' and x.attr in stored:
-                        neg = isinstance(t, ast.UnaryOp) and isinstance(t.op, ast.Not)
                         if (neg and in_body) or (not neg and not in_body):
                             cond_absent.add(('param', stored[x.attr]))
+                    # the same test on the constructor parameter itself (`name = var + '.' + field if field else var`)
+                    if isinstance(x, ast.Name) and x.id in params and (t is x or (neg and t.operand is x)):
+                        if (neg and in_body) or (not neg and not in_body):
+                            cond_absent.add(('param', x.id))
             for req in required:
                 if only_fields is not None and not (req[0] == 'field' and req[1] in only_fields):
                     continue
